@@ -1,6 +1,6 @@
 (* C05 - property theorems only. *)
-From Coq Require Import Reals List.
-Require Import PV.Num PV.Fit.
+From Coq Require Import QArith Qcanon Reals List.
+Require Import PV.Num PV.Fit PV.FitTransfer.
 Import ListNotations.
 Local Open Scope R_scope.
 
@@ -101,6 +101,27 @@ Theorem C05_kkt_certificate_gap :
   fR terms star - fR terms theta <= gapbound RNum terms star w + eps RNum terms w box.
 Proof. exact kkt_certificate_gap. Qed.
 
+(* the same at the level of the rate model (sum over samples of nominal x product of parameters): on the box that pins the
+   fixed coordinates, the reduction to affine terms is exact, hence the certificate bounds the model's own NLL *)
+Theorem C05_kkt_certificate_model :
+  forall m mask ref (M : model RNum) terms star w box,
+  idx_ok m M -> affine_terms RNum m mask ref M = Some terms ->
+  length star = m -> length w = m -> agree mask ref star -> agree mask ref w ->
+  Forall (fun t => term_ok t star) terms -> in_box w box -> Forall (fun t => term_ok t w) terms ->
+  forall theta, agree mask ref theta -> in_box theta box -> Forall (fun t => term_ok t theta) terms ->
+  nllM M star - nllM M theta <= gapbound RNum terms star w + eps RNum terms w box.
+Proof. exact kkt_certificate_model. Qed.
+
+(* the rational number the check computes (vm_compute at Qc) IS such a bound over R: Qc2R commutes with the generic text,
+   and the boolean side conditions the check evaluates imply the premises above *)
+Theorem C05_checked_certificate :
+  forall (terms : list (term QcNum)) (star w : list Qc) (box : list (Qc * Qc)),
+  shapes_okb QcNum (length w) terms = true ->
+  rates_posb QcNum terms star = true -> rates_posb QcNum terms w = true -> in_boxb QcNum w box = true ->
+  forall theta, in_box theta (hbox box) -> Forall (fun t => term_ok t theta) (map hterm terms) ->
+  fR (map hterm terms) (hv star) - fR (map hterm terms) theta <= Qc2R (gapbound QcNum terms star w + eps QcNum terms w box)%Qc.
+Proof. exact checked_certificate. Qed.
+
 Theorem C05_nllterm_tangent : forall n lam lam', 0 <= n -> 0 < lam -> 0 < lam' ->
   nllterm n lam >= nllterm n lam' + (lam - lam') * (1 - n / lam').
 Proof. exact nllterm_tangent. Qed.
@@ -120,5 +141,7 @@ Print Assumptions C05_stitch_places.
 Print Assumptions C05_kkt_certificate.
 Print Assumptions C05_kkt_certificate_witness.
 Print Assumptions C05_kkt_certificate_gap.
+Print Assumptions C05_kkt_certificate_model.
+Print Assumptions C05_checked_certificate.
 Print Assumptions C05_nllterm_tangent.
 Print Assumptions C05_closed_form_counting.
